@@ -30,6 +30,10 @@ pub enum End {
     ChangesetThenDrop,
     /// a commit fails (injected I/O fault), the handle is poisoned, then dropped
     PoisonThenDrop,
+    /// a commit fails in the value-store write phase (injected fault on one ln page write) while ANOTHER page write
+    /// of the same commit is still held back in an I/O worker; the poisoned handle is dropped while a second thread
+    /// keeps trying to open the directory: it may only get in once that write has completed
+    PoisonHeldWriteThenDrop,
     /// the thread owning the handle panics (the handle is dropped by unwinding)
     Panic,
     /// (child holder) SIGKILL while idle
@@ -542,7 +546,7 @@ fn run_case<H: HK>(case: &C20Case, scratch: &Scratch) -> Result<CaseInfo, Violat
                     }
                     allowed = (last_done.max(committed)..=began.max(last_done).max(committed)).collect();
                     info.bump("holder_killed_while_committing");
-                } else if matches!(end, End::Kill | End::Panic | End::PoisonThenDrop) {
+                } else if matches!(end, End::Kill | End::Panic | End::PoisonThenDrop | End::PoisonHeldWriteThenDrop) {
                     k.kill();
                     info.bump("holder_killed_idle");
                 } else {
@@ -614,6 +618,84 @@ fn run_case<H: HK>(case: &C20Case, scratch: &Scratch) -> Result<CaseInfo, Violat
                         }
                     }
                     db.close().map_err(|f| viol(step, f.sig()))?;
+                }
+                End::PoisonHeldWriteThenDrop => {
+                    // needs >= 2 I/O workers (one holds a write, another one reports the failing write); reopen with that
+                    let mut cfg2 = cfg.clone();
+                    cfg2.io_workers = cfg2.io_workers.max(2);
+                    db.close().map_err(|f| viol(step, f.sig()))?;
+                    let db = Db::<H>::open(&dir, &cfg2).map_err(|f| viol(step, f.sig()))?;
+                    for _ in 0..3 {
+                        if is_heavy(seed, committed) {
+                            break;
+                        }
+                        db.commit_batch(&Map::new(), &batch_of(seed, committed), &CommitOpts::default()).map_err(|f| viol(step, f.sig()))?;
+                        committed += 1;
+                    }
+                    let mut s = SplitMix(seed ^ 0x4e1d ^ ri as u64);
+                    rec.set_hold(Some(("ln", 25_000 + s.below(40_000))));
+                    rec.watch(&dir, Some(FailPlan { k: 1 + s.below(3) as usize, persistent: false, errno: libc::EIO, class: Some("ln") }));
+                    let r2 = db.commit_batch(&Map::new(), &batch_of(seed, committed), &CommitOpts::default());
+                    let fired = !rec.fired().is_empty();
+                    match (&r2, fired) {
+                        (Ok(_), false) => {
+                            committed += 1;
+                            allowed = vec![committed];
+                        }
+                        (Ok(_), true) => {
+                            rec.unwatch();
+                            rec.set_hold(None);
+                            return Err(viol(step, "INFRA: injected fault but commit succeeded (C14's business)".into()));
+                        }
+                        (Err(_), _) => {
+                            allowed = vec![committed, committed + 1];
+                        }
+                    }
+                    let pending_at_return = rec.in_flight_events();
+                    // a second thread hammers Nomt::open while the handle is being dropped
+                    let (d2, c2) = (dir.clone(), cfg2.clone());
+                    let rec2 = rec.clone();
+                    let spinner = std::thread::spawn(move || -> Result<Option<usize>, String> {
+                        let t0 = Instant::now();
+                        loop {
+                            match Db::<H>::open(&d2, &c2) {
+                                Ok(db) => {
+                                    let pending = rec2.in_flight_events();
+                                    let _ = db.close();
+                                    return Ok(Some(pending));
+                                }
+                                Err(f) if f.sig().contains("panic") => return Err(f.sig()),
+                                Err(_) => {}
+                            }
+                            if t0.elapsed() > Duration::from_secs(10) {
+                                return Ok(None);
+                            }
+                            std::thread::sleep(Duration::from_micros(200));
+                        }
+                    });
+                    std::thread::sleep(Duration::from_micros(300));
+                    let closed = db.close();
+                    let got = spinner.join().map_err(|_| viol(step, "opener thread panicked".into()))?;
+                    rec.unwatch();
+                    rec.set_hold(None);
+                    closed.map_err(|f| viol(step, f.sig()))?;
+                    match got {
+                        Err(m) => return Err(viol(step, format!("an open attempt during the drop of a poisoned handle panicked: {m}"))),
+                        Ok(None) => return Err(viol(step, "after a failed commit and drop the directory could not be opened for 10 s".into())),
+                        Ok(Some(p)) if p > 0 => {
+                            return Err(viol(
+                                step,
+                                format!("the directory was handed to a new handle while {p} file operation(s) of the previous (failed, dropped) handle were still in flight: a background writer outlived the lock"),
+                            ))
+                        }
+                        Ok(Some(_)) => {}
+                    }
+                    if r2.is_err() {
+                        info.bump("end_poison_with_held_write");
+                        if pending_at_return > 0 {
+                            info.bump("end_poison_with_write_still_in_flight_at_return");
+                        }
+                    }
                 }
                 End::Panic => {
                     let h = std::thread::spawn(move || {
@@ -717,7 +799,7 @@ impl Check for C20 {
          Nomt::open on an existing store or (first round, prefill 0) on an absent directory: exactly one may succeed, the winner sees the committed root; (2) INTRUSION - while the winner (a thread's handle \
          or a child process) is alive, idle or committing in a loop, 0..4 threads and 0..3 processes try to open: all must get Err (no panic), and when the holder is idle the directory (content hash, \
          file lengths, modification times incl. .lock) is identical before and after; (3) END - the holder ends by drop, by drop right after an unfinished session with warm-up requests, by drop after \
-         an uncommitted changeset, by drop after a commit failed through an injected I/O fault (poisoned), by a panic unwinding the owning thread, by SIGKILL idle or mid-commit, or by orderly child exit; \
+         an uncommitted changeset, by drop after a commit failed through an injected I/O fault (poisoned), by drop after a commit failed while another page write of it was still held back in an I/O worker - with a second thread hammering Nomt::open during the drop, which may get in only when no operation of the old handle is in flight any more -, by a panic unwinding the owning thread, by SIGKILL idle or mid-commit, or by orderly child exit; \
          (4) REOPEN - Nomt::open right afterwards (no retry) must succeed, show the state the holder may have left (exactly the committed state, or committed/+1 for an interrupted commit), serve reads and \
          a further commit; in half of the cases the directory is first watched for 3 ms through the I/O hook and by content stamps: no write / append / resize / create / unlink event (late fsyncs are counted only) and no content change may occur after the \
          handle ended. Non-trivial = a scenario with a race of >= 2 openers and >= 1 cross-process attempt; distinct = distinct serialized case".into()
@@ -737,6 +819,7 @@ impl Check for C20 {
             3 => Just(End::SessionThenDrop),
             2 => Just(End::ChangesetThenDrop),
             2 => Just(End::PoisonThenDrop),
+            2 => Just(End::PoisonHeldWriteThenDrop),
             1 => Just(End::Panic),
             2 => Just(End::Kill),
             2 => Just(End::KillBusy),
